@@ -237,6 +237,8 @@ func TestC18_Addressing(t *testing.T) {
 			base := rapid.SampledFrom([]string{"a", "b", "idx", "a.b", "tw"}).Draw(rt, "base")
 			p := realDir + "/" + sub + base + ext
 			content := "FILE:" + sub + base
+			// a file is its bytes: a byte order mark, a carriage return, a final line break are text like any other
+			content = rapid.SampledFrom([]string{"", "", "\xef\xbb\xbf", "\r\n", "\n", " "}).Draw(rt, "leadingBytes") + content + rapid.SampledFrom([]string{"", "", "\r\n", "\n", "\xef\xbb\xbf"}).Draw(rt, "trailingBytes")
 			if rapid.IntRange(0, 6).Draw(rt, "asLayout") == 0 {
 				content += " @reserve(\"r\")"
 			}
